@@ -10,7 +10,7 @@ from bvt.gen import Profile, scenario
 ID = 'C17'
 LEVEL = 'fault_enumeration'
 RULE = (
-    'Generated buses with wal_path (fresh temp dir per case), nested and forwarded events with payloads from a '
+    'Generated buses (serial and parallel_handlers) with wal_path (fresh temp dir per case), raising handlers, nested and forwarded events with payloads from a '
     'recursive strategy (unicode incl. U+2028/U+0085/emoji/quotes/newlines, nested containers, datetimes, extra '
     'fields), virtual I/O latency, and a fault plan: the j-th off-loaded I/O call (open/write/close) raises OSError '
     '(quick: drawn j; thorough: additionally every j of a pilot run for base scenarios), or the parent of the path is a '
@@ -21,7 +21,7 @@ RULE = (
     'ordered subset, an ERROR record logged per fault, later lines still appended. Non-trivial = >= 2 lines including '
     'a nested or forwarded event, or a fault fired; distinct by canonical JSON.'
 )
-ASSUMPTIONS = ['anyio worker threads are replaced by deterministic inline calls with generated latency', 'files are split on "\\n" only', 'serial buses; no raising handlers so every ERROR record stems from the WAL']
+ASSUMPTIONS = ['anyio worker threads are replaced by deterministic inline calls with generated latency', 'files are split on "\\n" only', 'ERROR records are counted: one per raising handler plus one per failed WAL write']
 
 _leaf = st.one_of(st.none(), st.booleans(), st.integers(-5, 5), st.floats(allow_nan=False, allow_infinity=False, width=32), st.text(alphabet=st.sampled_from(list('ab"\\\n\r\t/ é \u0085\U0001F600\u0000')), max_size=5))
 _json = st.recursive(_leaf, lambda ch: st.one_of(st.lists(ch, max_size=3), st.dictionaries(st.text(alphabet='ab "', max_size=3), ch, max_size=3)), max_leaves=6)
@@ -43,7 +43,7 @@ def _payload(draw):
     return p
 
 
-P = Profile(par=0.0, fwd=0.4, maxdepth=[1, 2], wild=0.2, raises=0.0, probe=True, max_actors=2, actor_ops=['disp', 'disp', 'dispany', 'sleep', 'await', 'burst'], max_actor_ops=5, durs=[0.01, 0.05, 0.1], hist=[None], cap=40, burst=[2, 3], warm=[False])
+P = Profile(par=0.2, fwd=0.4, maxdepth=[1, 2], wild=0.2, raises=0.12, raise_kinds=['VE', 'custom'], probe=True, max_actors=2, actor_ops=['disp', 'disp', 'dispany', 'sleep', 'await', 'burst'], max_actor_ops=5, durs=[0.01, 0.05, 0.1], hist=[None], cap=40, burst=[2, 3], warm=[False])
 
 
 @st.composite
@@ -167,12 +167,19 @@ def run_case(sc):
             viol.append(('C17.a', f'{name}: duplicate WAL lines: {ids}'))
         if any(i not in order for i in ids if i is not None) and not hang:
             viol.append(('C17.a', f'{name}: WAL has lines {ids} for events not processed by this bus (processed: {order})'))
+        done_t = {ev: tr[i]['t'] for i, ev in finished}
+
+        def in_order(seq):
+            # processing order = order in which the handlers of the bus finished; events that finished at the same virtual
+            # instant (overlapping inline processing on a parallel_handlers bus) may appear in either order
+            ts = [done_t[e] for e in seq if e in done_t]
+            return all(a <= b for a, b in zip(ts, ts[1:]))
+
         if not faults and not bus_faulted:
-            if not hang and ids != order:
+            if not hang and (sorted(x for x in ids if x is not None) != sorted(order) or len(ids) != len(order) or not in_order(ids)):
                 viol.append(('C17.a', f'{name}: WAL lines {ids} != events processed by the bus in order of handler completion {order}'))
         else:
-            sub = [i for i in order if i in ids]
-            if [i for i in ids if i in order] != sub:
+            if not in_order([i for i in ids if i in order]):
                 viol.append(('C17.a', f'{name}: WAL lines {ids} are not in processing order {order}'))
             nf = len([f for f in faults]) if not bus_faulted else len(order)
             if not hang and len(order) - len(set(ids) & set(order)) > nf:
@@ -214,10 +221,11 @@ def run_case(sc):
         if persistent:
             bi = cfg.get('fault_bus')
             nfail = len({ev for (bb, ev) in F.enq if bb == f'B{bi}'})
-        if wal.get('errors_logged', 0) < nfail:
-            viol.append(('C17.d', f'{nfail} WAL write(s) failed but only {wal.get("errors_logged", 0)} ERROR record(s) were logged'))
-        if not faults and not persistent and wal.get('errors_logged', 0) > 0:
-            viol.append(('C17.d', f'{wal.get("errors_logged")} ERROR record(s) logged although no fault was injected'))
+        nraise = sum(1 for r in tr if r['k'] == 'exit' and r['how'] == 'raise')  # every raising handler is logged at ERROR too
+        if wal.get('errors_logged', 0) < nfail + nraise:
+            viol.append(('C17.d', f'{nfail} WAL write(s) failed (and {nraise} handlers raised) but only {wal.get("errors_logged", 0)} ERROR record(s) were logged'))
+        if not faults and not persistent and wal.get('errors_logged', 0) > nraise:
+            viol.append(('C17.d', f'{wal.get("errors_logged")} ERROR record(s) logged although no fault was injected and only {nraise} handlers raised'))
     if faults:
         cl.append('fault-fired:' + faults[0]['op'])
     if persistent:
